@@ -7,7 +7,7 @@ import math
 import os
 from fractions import Fraction
 
-from ..harness import ROOT, Run
+from ..harness import short, ROOT, Run
 from .. import catalogue, dims
 
 PROPERTY = "C20"
@@ -160,6 +160,18 @@ def operation_histories(consts: dict, ref: dict) -> list:
             except Exception:
                 r = None  # refusing is fine; corrupting the table is not
             msgs = _check_constant(n, q, ref["constants"][n])
+            # operations that answer with the SI value of the constant: that value, too
+            expect = {"convert_to_si(q)": (1, 1e-12), "evaluate_expression(q, evaluate=True)": (1,
+                1e-12), "evaluate_expression(3*q)": (3, 1e-12), "evaluate_expression(3*q, True, n=3)":
+                (3, 1e-2)}.get(opname)
+            if expect is not None and r is not None:
+                try:
+                    num = complex(__import__("sympy").N(r, 30))
+                    val = _si_value(q) * expect[0]
+                    if abs(num - val) > expect[1] * abs(val):
+                        msgs.append(f"{opname} answers {num!r} for {n}, SI value {val!r}")
+                except (TypeError, ValueError):
+                    msgs.append(f"{opname} answers {short(r)} for {n}, which is not a number")
             if r is q and opname.startswith(("Quantity(", "evaluate_quantity(")):
                 msgs.append(f"{opname} returned the catalogue object itself instead of a new quantity")
             out.append((opname, n, "; ".join(f"after {opname}: {m}" for m in msgs)))
